@@ -139,7 +139,7 @@ def rule_route(ctx, res):
                 msg = strip_transparent(e[2][3])
                 gm = find_calls(lk, '::get_mut')
                 good = (gm and field_chain(strip_transparent(gm[0][2][0])) == ['lookups'] and find_calls(gm[0][2][1], 'TransactionID::action_id')
-                        and is_param(tid, 'trans_id') and is_param(msg, 'rsp')
+                        and strip_transparent(find_calls(gm[0][2][1], 'TransactionID::action_id')[0][2][0]) == tid and is_param(msg, 'rsp')
                         and node[0] == 'call' and node[1] == 'node::Node::as_good' and is_param(strip_transparent(node[2][1]), 'addr')
                         and field_chain(strip_transparent(node[2][0])) == ['id'] and is_param(root_of(strip_transparent(node[2][0])), 'rsp'))
                 ok = ok and bool(good)
